@@ -14,7 +14,7 @@ BUILT = {
          "Every successful allocation in generated histories is checked for the stated capacity, offset alignment and address alignment, including recycled segments, odd cursor residues and zero-size requests on full arenas.",
          "same as C01", "5/C03"),
  "C04": ("engine-a", "exploration", "boundary-value stateful property testing under checked and unchecked builds, supervised worker processes",
-         "Boundary-dense huge sizes on every reachable state, same seeds under overflow-checked and unchecked builds; panics are caught, signals are caught by the supervisor and minimised by delta debugging in child processes. The thorough tier adds a coverage-guided stage: the same interpreter as a libFuzzer target (cargo +nightly fuzz, AddressSanitizer, 16 jobs), so that any access outside the arena's heap block is a crash.",
+         "7/8 of the cases: boundary-dense huge sizes on every reachable state, same seeds under overflow-checked and unchecked builds; 1/8: Engine B programs on an exhausted shared arena where a returning (in particular a failing) call must not leave a segment it marked behind; panics are caught, signals are caught by the supervisor and minimised by delta debugging in child processes. The thorough tier adds a coverage-guided stage: the same interpreter as a libFuzzer target (cargo +nightly fuzz, AddressSanitizer, 16 jobs), so that any access outside the arena's heap block is a crash.",
          "out-of-arena accesses are seen through consequences (signal, corrupted neighbour) in the quick tier", "5/C04"),
  "C05": ("engine-a", "exploration", "stateful property testing with close/reopen steps, state-before-close = state-after-open relation",
          "Histories on real files cut by drop+reopen in the four open modes with same/larger/absent capacity; state tuple, free list and all handed-out bytes compared across each reopen; shadow map carried over so later allocations are checked against pre-close live ranges.",
@@ -26,7 +26,7 @@ BUILT = {
          "Same engine as C02 with threads that keep allocations forever or finish early; violation iff every unfinished thread has re-examined an unchanging state for more than L scheduling points (then no call can ever return). Starvation under an infinite fair schedule is out of reach and counted as inconclusive when a per-operation budget trips.",
          "liveness is decided through a bounded safety surrogate; fair round-robin fallback schedule", "4.3, 5/C07"),
  "C08": ("engine-a", "exploration", "stateful property testing with dirty-fill owners, all-zero predicate at alloc_bytes return",
-         "Every owner dirties its range; every alloc_bytes/alloc_bytes_owned return is checked byte-for-byte for zero across fresh, rewound, top-released, recycled and reopened space.",
+         "Every owner dirties its range; every alloc_bytes/alloc_bytes_owned return is checked byte-for-byte for zero across fresh, rewound, top-released, recycled and reopened space (5/6 Engine A histories) and across ranges recycled between threads under a generated schedule (1/6 Engine B programs).",
          "same as C01", "5/C08"),
  "C09": ("file-engine", "exploration", "mutation-based property testing of every open variant against a field-level validity oracle; byte-for-byte file comparison; read-only op sessions; supervised worker processes",
          "A valid arena file from a generated history (with stale bytes above the cursor) is mutated (identification bytes, truncation, arbitrary replacement, wrong expected options) and opened through all four variants; refused opens must be refused exactly when the decoded fields demand it and must leave the file prefix identical. Read-only sessions run generated sequences over the safe mutating API: ReadOnly / documented panic / unchanged state, never a signal, file identical afterwards.",
@@ -101,7 +101,7 @@ def main():
             {"name": "reader-engine", "path": "/verif/harness/src/props/small.rs", "serves_properties": ["C15"], "kind_free_text": "micro-case property engine for the arena-level get_* readers"},
             {"name": "checksum-engine", "path": "/verif/harness/src/props/small.rs", "serves_properties": ["C19"], "kind_free_text": "micro-case property engine for Allocator::checksum"},
             {"name": "file-engine", "path": "/verif/harness/src/props/c09.rs", "serves_properties": ["C09"], "kind_free_text": "file mutator + read-only session engine on top of Engine A's file builder"},
-            {"name": "engine-b", "path": "/verif/harness/src/engb.rs", "serves_properties": ["C02", "C07", "C12", "C13"], "kind_free_text": "controlled scheduler: real threads, real sync::Arena, baton passed at every atomic access (verif hook) following a generated schedule; shadow map, stall detector, vector-clock race detector"},
+            {"name": "engine-b", "path": "/verif/harness/src/engb.rs", "serves_properties": ["C02", "C04", "C07", "C08", "C12", "C13"], "kind_free_text": "controlled scheduler: real threads, real sync::Arena, baton passed at every atomic access (verif hook) following a generated schedule; shadow map, stall detector, vector-clock race detector"},
             {"name": "fuzz-hist", "path": "/verif/harness/fuzz/fuzz_targets/hist.rs", "serves_properties": ["C04"], "kind_free_text": "libFuzzer + AddressSanitizer target over the Engine A interpreter (structure-aware byte decoder in harness/src/fuzzdec.rs); thorough tier of C04"},
             {"name": "engine-a", "path": "/verif/harness/src/enga.rs", "serves_properties": [p for p in ALL if p in BUILT and BUILT[p][0] == "engine-a"], "kind_free_text": "single-threaded model-based history interpreter driven by proptest strategies; shadow map + free-list snapshot oracles; worker processes under a supervisor"},
         ],
